@@ -61,7 +61,7 @@ CHECKS = {
    "Ingested batch seqno read back as seqno counter - 1 after finish().",
    "deterministic simulation: ingestion history vs reference model", "4/C14"),
  "C15": ("seq", "exploration",
-   "drop_range with bounds around table edges and clear; outside-R keys and earlier snapshots unchanged; dropped tables wholly inside R by their real first/last key; inside R the model re-synchronises from a physical audit.",
+   "drop_range with bounds around table edges and clear; outside-R keys and earlier snapshots unchanged; dropped tables wholly inside R by their real first/last key; inside R the model re-synchronises from a physical audit. Every fourth run is a schedule run: a clear() thread next to writer, readers, flusher and compactors under the baton scheduler, judged with begin/end event windows (a write/snapshot in flight during the clear may go either way, everything else is exact), quiescent content, flush + reopen.",
    "Nothing is demanded for keys inside R (the property says nothing about them).",
    "deterministic simulation: drop_range/clear history vs model + physical audit", "4/C15"),
  "C16": ("fault", "fault_enumeration",
